@@ -4,10 +4,7 @@ package c14
 import (
 	"bytes"
 	"context"
-	"errors"
 	"fmt"
-	"io"
-	"os"
 	"strings"
 	"sync"
 	"testing"
@@ -17,6 +14,7 @@ import (
 	"perkeep.org/pkg/vsync"
 
 	"verif/bk"
+	"verif/c14prog"
 	"verif/hs"
 	"verif/lin"
 	"verif/sched"
@@ -25,134 +23,9 @@ import (
 
 var ctx = context.Background()
 
-var universe = []hs.Blob{hs.BA, hs.BSchema, hs.BChunk}
-var names = []string{"a", "s", "k"}
-
-type op struct {
-	kind int
-	mask uint32
-}
-
-type program struct {
-	name    string
-	init    uint32
-	clients [][]op
-	removes bool
-}
-
-var programs = []program{
-	{"recv-a||recv-a||fetch-a", 0, [][]op{{{lin.Recv, 1}}, {{lin.Recv, 1}}, {{lin.Fetch, 1}}}, false},
-	{"remove-a||recv-a||enum", 1, [][]op{{{lin.Remove, 1}}, {{lin.Recv, 1}}, {{lin.Enum, 0}}}, true},
-	{"recv-k||fetch-s;stat-sk", 2, [][]op{{{lin.Recv, 4}}, {{lin.Fetch, 2}, {lin.Stat, 6}}}, false},
-	{"recv-a;recv-s||enum", 0, [][]op{{{lin.Recv, 1}, {lin.Recv, 2}}, {{lin.Enum, 0}}}, false},
-	{"fetch-a||fetch-s||remove-a", 3, [][]op{{{lin.Fetch, 1}}, {{lin.Fetch, 2}}, {{lin.Remove, 1}}}, true},
-	{"recv-a;remove-a||stat-a;fetch-a", 0, [][]op{{{lin.Recv, 1}, {lin.Remove, 1}}, {{lin.Stat, 1}, {lin.Fetch, 1}}}, true},
-}
-
-func firstBlob(mask uint32) hs.Blob {
-	for i, b := range universe {
-		if mask&(1<<i) != 0 {
-			return b
-		}
-	}
-	panic("empty mask")
-}
-
-func maskOf(br blob.Ref) (uint32, bool) {
-	for i, b := range universe {
-		if b.Ref == br {
-			return 1 << i, true
-		}
-	}
-	return 0, false
-}
-
-// do runs one op on sto and returns its output; problem != "" flags an
-// intrinsically wrong result (duplicate / unknown ref / unsorted).
-func do(sto blobserver.Storage, o op) (out lin.Out, problem string) {
-	switch o.kind {
-	case lin.Recv:
-		b := firstBlob(o.mask)
-		sr, err := blobserver.Receive(ctx, sto, b.Ref, bytes.NewReader(b.Data))
-		if err != nil {
-			return lin.Out{Err: true}, "receive failed: " + err.Error()
-		}
-		if sr != b.Sized() {
-			return lin.Out{Err: true}, fmt.Sprintf("receive returned %v", sr)
-		}
-	case lin.Remove:
-		b := firstBlob(o.mask)
-		if err := sto.RemoveBlobs(ctx, []blob.Ref{b.Ref}); err != nil {
-			return lin.Out{Err: true}, "remove failed: " + err.Error()
-		}
-	case lin.Fetch:
-		b := firstBlob(o.mask)
-		rc, size, err := sto.Fetch(ctx, b.Ref)
-		if err != nil {
-			if errors.Is(err, os.ErrNotExist) {
-				return lin.Out{}, ""
-			}
-			return lin.Out{Err: true}, "fetch failed: " + err.Error()
-		}
-		d, rerr := io.ReadAll(rc)
-		rc.Close()
-		if rerr != nil || int(size) != len(b.Data) || !bytes.Equal(d, b.Data) {
-			zero := len(d) == len(b.Data) && len(bytes.Trim(d, "\x00")) == 0 && len(d) > 0
-			return lin.Out{Err: true}, fmt.Sprintf("fetch returned wrong content (size %d, %d bytes read, err %v, all-zero=%v)", size, len(d), rerr, zero)
-		}
-		return lin.Out{Mask: o.mask}, ""
-	case lin.Stat:
-		var refs []blob.Ref
-		for i, b := range universe {
-			if o.mask&(1<<i) != 0 {
-				refs = append(refs, b.Ref)
-			}
-		}
-		var got uint32
-		var prob string
-		err := sto.StatBlobs(ctx, refs, func(sb blob.SizedRef) error {
-			m, ok := maskOf(sb.Ref)
-			if !ok || m&o.mask == 0 {
-				prob = "stat reported a ref that was not asked for"
-			} else if got&m != 0 {
-				prob = "stat reported a ref twice"
-			} else if sb.Size != firstBlob(m).Sized().Size {
-				prob = "stat reported a wrong size"
-			}
-			got |= m
-			return nil
-		})
-		if err != nil {
-			return lin.Out{Err: true}, "stat failed: " + err.Error()
-		}
-		return lin.Out{Mask: got}, prob
-	case lin.Enum:
-		list, err := hs.Enumerate(ctx, sto, "", 100)
-		if err != nil {
-			return lin.Out{Err: true}, "enumerate failed: " + err.Error()
-		}
-		var got uint32
-		prob := ""
-		for i, sb := range list {
-			m, ok := maskOf(sb.Ref)
-			if !ok {
-				prob = "enumerate reported an unknown ref"
-			} else if got&m != 0 {
-				prob = "enumerate reported a ref twice"
-			}
-			if i > 0 && list[i-1].Ref.String() >= sb.Ref.String() {
-				prob = "enumerate not in ascending order"
-			}
-			got |= m
-		}
-		return lin.Out{Mask: got}, prob
-	}
-	return lin.Out{}, ""
-}
-
-func scenario(spec *bk.Spec, p program, bound int) *sched.Config {
-	name := spec.Name + "/" + p.name
-	return &sched.Config{Name: name, Bound: bound, SigPrefix: "C14|" + spec.Name + "|" + p.name,
+func scenario(spec *bk.Spec, p c14prog.Program, bound int) *sched.Config {
+	name := spec.Name + "/" + p.Name
+	return &sched.Config{Name: name, Bound: bound, SigPrefix: "C14|" + spec.Name + "|" + p.Name,
 		Body: func(x *sched.X) {
 			env := bk.NewEnv()
 			defer env.Close()
@@ -166,11 +39,11 @@ func scenario(spec *bk.Spec, p program, bound int) *sched.Config {
 			}
 			ref := hs.NewRefMap()
 			if spec.Prepop != nil {
-				spec.Prepop(env, ref, universe)
+				spec.Prepop(env, ref, c14prog.Universe)
 			}
 			init := uint32(0)
-			for i, b := range universe {
-				if p.init&(1<<i) != 0 && !ref.Has(b) {
+			for i, b := range c14prog.Universe {
+				if p.Init&(1<<i) != 0 && !ref.Has(b) {
 					if _, err := blobserver.Receive(ctx, sto, b.Ref, bytes.NewReader(b.Data)); err != nil {
 						panic(err)
 					}
@@ -182,15 +55,15 @@ func scenario(spec *bk.Spec, p program, bound int) *sched.Config {
 			}
 			rec := &lin.Recorder{}
 			var mu sync.Mutex
-			for ci, ops := range p.clients {
+			for ci, ops := range p.Clients {
 				ci, ops := ci, ops
 				x.Go(fmt.Sprintf("c%d", ci), func() {
 					for _, o := range ops {
 						call := rec.Now()
-						out, prob := do(sto, o)
+						out, prob := c14prog.Do(sto, o)
 						ret := rec.Now()
 						mu.Lock()
-						rec.Add(ci, lin.In{Kind: o.kind, Mask: o.mask}, call, out, ret)
+						rec.Add(ci, lin.In{Kind: o.Kind, Mask: o.Mask}, call, out, ret)
 						mu.Unlock()
 						if prob != "" {
 							x.Fail("bad-result:"+probClass(prob), prob)
@@ -207,33 +80,33 @@ func scenario(spec *bk.Spec, p program, bound int) *sched.Config {
 				return
 			}
 			// final sequential reads belong to the history: everything acknowledged and not removed must be there
-			for i := range universe {
-				o := op{lin.Fetch, 1 << i}
+			for i := range c14prog.Universe {
+				o := c14prog.Op{Kind: lin.Fetch, Mask: 1 << i}
 				call := rec.Now()
-				out, prob := do(sto, o)
-				rec.Add(99, lin.In{Kind: o.kind, Mask: o.mask}, call, out, rec.Now())
+				out, prob := c14prog.Do(sto, o)
+				rec.Add(99, lin.In{Kind: o.Kind, Mask: o.Mask}, call, out, rec.Now())
 				if prob != "" {
 					x.Fail("bad-result-final:"+probClass(prob), prob)
 				}
 			}
-			for _, o := range []op{{lin.Stat, 7}, {lin.Enum, 0}} {
+			for _, o := range []c14prog.Op{{Kind: lin.Stat, Mask: 7}, {Kind: lin.Enum, Mask: 0}} {
 				call := rec.Now()
-				out, prob := do(sto, o)
-				rec.Add(99, lin.In{Kind: o.kind, Mask: o.mask}, call, out, rec.Now())
+				out, prob := c14prog.Do(sto, o)
+				rec.Add(99, lin.In{Kind: o.Kind, Mask: o.Mask}, call, out, rec.Now())
 				if prob != "" {
 					x.Fail("bad-result-final:"+probClass(prob), prob)
 				}
 			}
 			if !x.Failed() && !rec.Check(init) {
 				cls := classify(rec, init)
-				x.Fail(cls, fmt.Sprintf("history is not linearizable from initial state {%s} [%s]: %s", maskNames(init), cls, rec.Describe(names)))
+				x.Fail(cls, fmt.Sprintf("history is not linearizable from initial state {%s} [%s]: %s", maskNames(init), cls, rec.Describe(c14prog.Names)))
 			}
 		}}
 }
 
 func maskNames(m uint32) string {
 	var s []string
-	for i, n := range names {
+	for i, n := range c14prog.Names {
 		if m&(1<<i) != 0 {
 			s = append(s, n)
 		}
@@ -253,8 +126,8 @@ func scenarios() []*sched.Config {
 		if sp.ReadOnly {
 			continue
 		}
-		for _, p := range programs {
-			if p.removes && !sp.Removes {
+		for _, p := range c14prog.Programs {
+			if p.Removes && !sp.Removes {
 				continue
 			}
 			out = append(out, scenario(sp, p, bound))
@@ -372,9 +245,9 @@ func classify(rec *lin.Recorder, init uint32) string {
 		out := r.Output.(lin.Out)
 		asked := in.Mask
 		if in.Kind == lin.Enum {
-			asked = 1<<len(universe) - 1
+			asked = 1<<len(c14prog.Universe) - 1
 		}
-		for i := range universe {
+		for i := range c14prog.Universe {
 			bit := uint32(1) << i
 			if asked&bit == 0 {
 				continue
